@@ -47,6 +47,7 @@ fn main() {
                 "C07" => rnv::c07::main(&ctx),
                 "C01" => rnv::c01::main(&ctx),
                 "C14" => rnv::c14::main(&ctx),
+                "C19" => rnv::c19::main(&ctx),
                 "C03" => rnv::c02::main(&ctx, rnv::logmodel::Profile::Truncation),
                 _ => {
                     eprintln!("unknown property {}", id);
